@@ -171,4 +171,261 @@ theorem clSat_spec {E : Env} (hE : OracleExact E) {self : Ops} (hs : SelfOk self
           rw [models_append] at ha ⊢
           exact ⟨ha.1, (hequiv a).mpr ha.2⟩
 
+
+/-! ### `eval` -/
+
+theorem nodup_map_on {α β : Type} {f : α → β} {l : List α} (h : ∀ x ∈ l, ∀ y ∈ l, f x = f y → x = y) (hd : l.Nodup) :
+    (l.map f).Nodup := by
+  induction l with
+  | nil => simp
+  | cons a t ih =>
+    rw [List.nodup_cons] at hd
+    rw [List.map_cons, List.nodup_cons]
+    refine ⟨?_, ih (fun x hx y hy => h x (List.mem_cons_of_mem _ hx) y (List.mem_cons_of_mem _ hy)) hd.2⟩
+    intro hmem
+    obtain ⟨y, hy, hfy⟩ := List.mem_map.mp hmem
+    have := h y (List.mem_cons_of_mem _ hy) a (List.mem_cons_self) hfy
+    subst this
+    exact hd.1 hy
+
+/-- ConcreteHandlerMixin.eval over ConstraintFilterMixin.eval over FullFrontend.eval -/
+def clEval (E : Env) (self : Ops) (e : Exp) (n : Nat) (extra : List Con) : M (List Nat) :=
+  match self.concreteValue e with
+  | some c => pure [c]
+  | none => do
+    let ec ← liftE (constraintFilter self extra)
+    let r ← getSolver
+    let res ← z3BatchEval E r [e] n (ec.map ZCon.ofCon) self.modelHook
+    let res := res.map fun t => t.headD 0
+    if res.isEmpty then M.throw .unsat else pure res
+
+theorem clStage_eval (E : Env) (k : Nat) : (clStage E (k + 1)).eval = clEval E (clStage E k) := rfl
+
+/-- what property C11 demands of an `eval` answer -/
+def EvalOk (cs : List Con) (e : Exp) (n : Nat) (vs : List Nat) : Prop :=
+  match e.conc with
+  | some c => vs = [c]
+  | none => (∀ v ∈ vs, Feasible cs e v) ∧ vs.Nodup ∧ vs.length ≤ n ∧ (∀ v, Feasible cs e v → v ∈ vs ∨ vs.length = n)
+
+/-- an error of a query: `UnsatError` only when the constraints (with the extra ones) are unsatisfiable, or the
+backend gave up -/
+def ErrOk (E : Env) (cs : List Con) (err : Err) : Prop := err = .unsat ∧ ¬ Satisfiable cs ∨ IsGiveUp E err
+
+theorem clEval_spec {E : Env} (hE : OracleExact E) {self : Ops} (hs : SelfOk self) (U : List Con) (s : St) (h : CLInv U s)
+    (e : Exp) (n : Nat) (hn : 1 ≤ n) (extra : List Con) (wf : ∀ c ∈ extra, ConWf c) :
+    match clEval E self e n extra s with
+    | (.ok vs, s') => EvalOk (U ++ extra) e n vs ∧ CLInv U s'
+    | (.error err, s') => ErrOk E (U ++ extra) err ∧ CLInv U s' := by
+  obtain ⟨hcc, hcv, hmh⟩ := hs
+  unfold clEval
+  rw [hcv e, hmh]
+  cases hconc : e.conc with
+  | some c => simp only [pure, M.pure, EvalOk, hconc]; exact ⟨trivial, h⟩
+  | none =>
+    simp only [bind, M.bind, liftE]
+    have hfs := filter_spec ⟨hcc, hcv, hmh⟩ extra wf
+    cases hf : constraintFilter self extra with
+    | error err =>
+      rw [hf] at hfs
+      obtain ⟨he, hun⟩ := hfs
+      exact ⟨Or.inl ⟨he, fun ⟨a, ha⟩ => hun a (models_append.mp ha).2⟩, h⟩
+    | ok ec =>
+      rw [hf] at hfs
+      obtain ⟨hequiv, _⟩ := hfs
+      simp only
+      have hgs := getSolver_spec s h.core
+      rcases hg : getSolver s with ⟨res, s1⟩
+      rw [hg] at hgs
+      cases res with
+      | error err => exact absurd hgs id
+      | ok r =>
+        simp only
+        obtain ⟨f, hf1⟩ := hgs.frames
+        have hsp := z3BatchEval_spec hE (hookOk_noop [] (fun fe => fe = s1.fe)) r [e] n (ec.map ZCon.ofCon) s1 hgs.lt
+          (by rw [hf1]; simp) (by simp)
+        rcases hz : z3BatchEval E r [e] n (ec.map ZCon.ofCon) (fun _ => pure ()) s1 with ⟨res2, s2⟩
+        rw [hz] at hsp
+        have hq : ∀ a, SatBy ((objAt s1 r).asserted ++ ec.map ZCon.ofCon) a ↔ Models (U ++ extra) a := by
+          intro a
+          rw [satBy_query h hgs ec a, models_append, models_append, hequiv a]
+        cases res2 with
+        | error err =>
+          obtain ⟨he, hst, hfr⟩ := hsp
+          exact ⟨Or.inr he, clInv_after_query h hgs hst hfr⟩
+        | ok ts =>
+          obtain ⟨hreal, hnd, hlen, hcomp, hst, hfr⟩ := hsp
+          have hinv := clInv_after_query h hgs hst hfr
+          have hsing : ∀ t ∈ ts, ∃ a, Models (U ++ extra) a ∧ t = [e.val a] := by
+            intro t ht
+            obtain ⟨a, ha, hat⟩ := hreal t ht
+            exact ⟨a, (hq a).mp ha, by simpa using hat.symm⟩
+          by_cases hemp : (ts.map fun t => t.headD 0).isEmpty = true
+          · -- nothing found: the constraints are unsatisfiable
+            simp only [hemp, ↓reduceIte, M.throw_apply]
+            refine ⟨Or.inl ⟨rfl, ?_⟩, hinv⟩
+            rintro ⟨a, ha⟩
+            have hts : ts = [] := by simpa using hemp
+            have := hcomp (by rw [hts]; simp; omega) a ((hq a).mpr ha)
+            rw [hts] at this
+            simp at this
+          · simp only [hemp, Bool.false_eq_true, ↓reduceIte, pure, M.pure]
+            refine ⟨?_, hinv⟩
+            simp only [EvalOk, hconc]
+            refine ⟨?_, ?_, by simpa using hlen, ?_⟩
+            · intro v hv
+              obtain ⟨t, ht, rfl⟩ := List.mem_map.mp hv
+              obtain ⟨a, ha, rfl⟩ := hsing t ht
+              exact ⟨a, ha, by simp⟩
+            · refine nodup_map_on ?_ hnd
+              intro x hx y hy hxy
+              obtain ⟨a, _, rfl⟩ := hsing x hx
+              obtain ⟨b, _, rfl⟩ := hsing y hy
+              simp at hxy
+              simp [hxy]
+            · intro v ⟨a, ha, hv⟩
+              by_cases hl : ts.length < n
+              · left
+                have := hcomp hl a ((hq a).mpr ha)
+                exact List.mem_map.mpr ⟨_, this, by simp [hv]⟩
+              · right
+                simp only [List.length_map]
+                omega
+
+
+/-! ### `solution`, `is_true`, `is_false` -/
+
+theorem wrap_nat (b v : Nat) (hv : v < 2 ^ b) : wrap b (v : Int) = v := by
+  have := wrap_of_nonneg b (v : Int) (by omega) (by omega)
+  omega
+
+def clSolution (E : Env) (self : Ops) (e : Exp) (v : Nat) (extra : List Con) : M Bool :=
+  match self.concreteValue e with
+  | some ce => pure (ce == v)
+  | none => do
+    let ec ← liftE (constraintFilter self extra)
+    let r ← getSolver
+    z3Solution E r e v (ec.map ZCon.ofCon) self.modelHook
+
+theorem clStage_solution (E : Env) (k : Nat) : (clStage E (k + 1)).solution = clSolution E (clStage E k) := rfl
+
+theorem clSolution_spec {E : Env} (hE : OracleExact E) {self : Ops} (hs : SelfOk self) (U : List Con) (s : St) (h : CLInv U s)
+    (e : Exp) (v : Nat) (hv : v < 2 ^ e.bits) (extra : List Con) (wf : ∀ c ∈ extra, ConWf c) :
+    match clSolution E self e v extra s with
+    | (.ok b, s') => (match e.conc with
+                      | some c => b = (c == v)
+                      | none => (b = true ↔ Feasible (U ++ extra) e v)) ∧ CLInv U s'
+    | (.error err, s') => ErrOk E (U ++ extra) err ∧ CLInv U s' := by
+  obtain ⟨hcc, hcv, hmh⟩ := hs
+  unfold clSolution
+  rw [hcv e, hmh]
+  cases hconc : e.conc with
+  | some c => simp only [pure, M.pure]; exact ⟨trivial, h⟩
+  | none =>
+    simp only [bind, M.bind, liftE]
+    have hfs := filter_spec ⟨hcc, hcv, hmh⟩ extra wf
+    cases hf : constraintFilter self extra with
+    | error err =>
+      rw [hf] at hfs
+      exact ⟨Or.inl ⟨hfs.1, fun ⟨a, ha⟩ => hfs.2 a (models_append.mp ha).2⟩, h⟩
+    | ok ec =>
+      rw [hf] at hfs
+      obtain ⟨hequiv, _⟩ := hfs
+      simp only
+      have hgs := getSolver_spec s h.core
+      rcases hg : getSolver s with ⟨res, s1⟩
+      rw [hg] at hgs
+      cases res with
+      | error err => exact absurd hgs id
+      | ok r =>
+        simp only [z3Solution]
+        have hsp := z3Satisfiable_spec hE (hookOk_noop [] (fun fe => fe = s1.fe)) r (eqCon e (v : Int) :: ec.map ZCon.ofCon) s1 (by simp)
+        rcases hz : z3Satisfiable E r (eqCon e (v : Int) :: ec.map ZCon.ofCon) (fun _ => pure ()) s1 with ⟨res2, s2⟩
+        rw [hz] at hsp
+        cases res2 with
+        | error err => exact ⟨Or.inr hsp.1, clInv_after_query h hgs hsp.2.1 hsp.2.2⟩
+        | ok b =>
+          obtain ⟨hb, hst, hfr⟩ := hsp
+          refine ⟨?_, clInv_after_query h hgs hst hfr⟩
+          rw [hb]
+          have hq : ∀ a, SatBy ((objAt s1 r).asserted ++ eqCon e (v : Int) :: ec.map ZCon.ofCon) a ↔
+              Models (U ++ extra) a ∧ e.val a = v := by
+            intro a
+            have h1 : SatBy ((objAt s1 r).asserted ++ eqCon e (v : Int) :: ec.map ZCon.ofCon) a ↔
+                SatBy ((objAt s1 r).asserted ++ ec.map ZCon.ofCon) a ∧ (eqCon e (v : Int)).sem a = true := by
+              simp only [SatBy, List.mem_append, List.mem_cons]
+              constructor
+              · intro hh
+                exact ⟨fun c hc => hh c (hc.elim Or.inl (fun x => Or.inr (Or.inr x))), hh _ (Or.inr (Or.inl rfl))⟩
+              · rintro ⟨h1, h2⟩ c hc
+                rcases hc with hc | rfl | hc
+                · exact h1 c (Or.inl hc)
+                · exact h2
+                · exact h1 c (Or.inr hc)
+            rw [h1, satBy_query h hgs ec a, models_append, models_append, hequiv a]
+            simp only [eqCon, decide_eq_true_eq, wrap_nat e.bits v hv]
+          constructor
+          · rintro ⟨a, ha⟩; exact ⟨a, ((hq a).mp ha).1, ((hq a).mp ha).2⟩
+          · rintro ⟨a, ha, hva⟩; exact ⟨a, (hq a).mpr ⟨ha, hva⟩⟩
+
+/-- after `_get_solver` alone (and a bump of the event counter) the invariant holds -/
+theorem clInv_after_getSolver {U : List Con} {s s1 : St} {r : Nat} (h : CLInv U s) (hg : GotSolver s s1 r) (t : Nat) :
+    CLInv U { s1 with tick := t } := by
+  have h2 : L1Step r (fun fe => fe = s1.fe) s1 { s1 with tick := t } := ⟨⟨rfl, fun _ _ => rfl, rfl, rfl⟩, fun hh => hh⟩
+  exact clInv_after_query h hg h2 rfl
+
+def clTruth (E : Env) (self : Ops) (isTrue : Bool) (c : Con) (extra : List Con) : M Bool :=
+  match self.concreteCon c with
+  | some b => pure (if isTrue then b else !b)
+  | none => do
+    let _ec ← liftE (constraintFilter self extra)
+    let _ ← getSolver
+    let s ← M.get
+    M.modify fun s => { s with tick := s.tick + 1 }
+    pure (E.truth isTrue c s.tick)
+
+theorem clStage_isTrue (E : Env) (k : Nat) : (clStage E (k + 1)).isTrue = clTruth E (clStage E k) true := by
+  funext c extra
+  simp only [clStage, stage, compose, mro, layerOf, List.foldr, concreteHandlerLayer, clTruth]
+  rfl
+
+theorem clStage_isFalse (E : Env) (k : Nat) : (clStage E (k + 1)).isFalse = clTruth E (clStage E k) false := by
+  funext c extra
+  simp only [clStage, stage, compose, mro, layerOf, List.foldr, concreteHandlerLayer, clTruth]
+  rfl
+
+theorem clTruth_spec {E : Env} (hT : CheapSound E) {self : Ops} (hs : SelfOk self) (U : List Con) (s : St) (h : CLInv U s)
+    (isTrue : Bool) (c : Con) (hc : ConWf c) (extra : List Con) (wf : ∀ c ∈ extra, ConWf c) :
+    match clTruth E self isTrue c extra s with
+    | (.ok b, s') => (b = true → ∀ a, Models (U ++ extra) a → c.sem a = isTrue) ∧ CLInv U s'
+    | (.error err, s') => ErrOk E (U ++ extra) err ∧ CLInv U s' := by
+  obtain ⟨hcc, hcv, hmh⟩ := hs
+  unfold clTruth
+  rw [hcc c]
+  cases hconc : c.conc with
+  | some b =>
+    simp only [pure, M.pure]
+    refine ⟨fun hb a _ => ?_, h⟩
+    have := hc.2.2.1 b hconc a
+    cases isTrue <;> simp_all
+  | none =>
+    simp only [bind, M.bind, liftE]
+    have hfs := filter_spec ⟨hcc, hcv, hmh⟩ extra wf
+    cases hf : constraintFilter self extra with
+    | error err =>
+      rw [hf] at hfs
+      exact ⟨Or.inl ⟨hfs.1, fun ⟨a, ha⟩ => hfs.2 a (models_append.mp ha).2⟩, h⟩
+    | ok ec =>
+      simp only
+      have hgs := getSolver_spec s h.core
+      rcases hg : getSolver s with ⟨res, s1⟩
+      rw [hg] at hgs
+      cases res with
+      | error err => exact absurd hgs id
+      | ok r =>
+        simp only [M.get_apply, M.modify_apply, pure, M.pure]
+        refine ⟨fun hb a _ => ?_, clInv_after_getSolver h hgs _⟩
+        cases isTrue
+        · exact hT.2.2 c _ hb a
+        · exact hT.2.1 c _ hb a
+
 end Claripy.Solver
